@@ -39,6 +39,8 @@ def main(argv=None):
     ap.add_argument('--max-report', type=int, default=6)
     ap.add_argument('--digests', default=None, help='write per-run digests to this file (determinism self-test)')
     ap.add_argument('--quiet', action='store_true')
+    ap.add_argument('--catch-file', default=None, help='write the work items whose run produced a violation (corpus building)')
+    ap.add_argument('--no-corpus', action='store_true')
     args = ap.parse_args(argv)
 
     boot.pin_env_and_reexec('simlab.check')
@@ -92,6 +94,23 @@ def main(argv=None):
 
     # ------------------------------------------------------------------ exploration
     work = check.args_for(args.tier, verif_seed, args.runs)
+    # regression corpus: work items (seeds) that once exposed a seeded change; they run in every invocation,
+    # whatever VERIF_SEED is, so that reaching those corners does not depend on luck
+    corpus_path = os.path.join(VERIF, 'corpus.json')
+    n_corpus = 0
+    if os.path.exists(corpus_path) and not args.no_corpus:
+        try:
+            have = {(w.get('seed'), w.get('mode')) for w in work}
+            for i, item in enumerate(json.load(open(corpus_path)).get(check.prop, [])):
+                if (item.get('seed'), item.get('mode')) in have:
+                    continue
+                it = {k: v for k, v in item.items() if k in ('seed', 'mode')}
+                it['k'] = 90_000_000 + i
+                work.append(it)
+                n_corpus += 1
+        except Exception as e:
+            print('HARNESS-ERROR: corpus.json unreadable:', e)
+            return 2
     nsample = 3
     for a in work[:check.n_directed() + nsample]:
         a['want_sample'] = True
@@ -116,6 +135,16 @@ def main(argv=None):
         for w, r in zip(recheck, again):
             if r[0] != 'ok' or r[1].get('digest') != by_k[w['k']].get('digest'):
                 det_ok = False
+    if args.catch_file:
+        by_k = {w['k']: w for w in work}
+        caught = []
+        for r in sorted(oks, key=lambda r: r['k']):
+            if r.get('violations'):
+                w = by_k.get(r['k'], {})
+                caught.append({'seed': w.get('seed'), 'mode': w.get('mode'), 'k': r['k'],
+                               'fingerprints': sorted({v['fingerprint'] for v in r['violations']})})
+        with open(args.catch_file, 'w') as f:
+            json.dump(caught, f)
     if args.digests:
         with open(args.digests, 'w') as f:
             for r in sorted(oks, key=lambda r: r['k']):
@@ -240,6 +269,7 @@ def main(argv=None):
                 'unlisted_violation_fingerprints': [r['fingerprint'] for r in reported],
                 'harness_errors': len(harness_errors),
                 'jobs': args.jobs or os.cpu_count(),
+                'corpus_runs_included': n_corpus,
             },
             'assumptions': check.assumptions,
             'wall_s': round(wall, 2),
